@@ -340,14 +340,31 @@ def run_history(sess, rng, fam, oracle, max_steps=None):
             keys = sorted(sess.inflight, key=repr)
             key = keys[rng.randrange(len(keys))]
             if rng.random() < fam["p_intermediate"]:
-                stt = rng.choice(fam.get("intermediate_statuses") or
-                                 ["running", "pausing", "paused", "pending", "resuming", "canceling"])
+                if fam.get("lifecycle"):
+                    # a plausible action lifecycle: running -> pausing -> paused -> resuming -> running, running -> canceling
+                    last = sess.last_reported.get(key) or "running"
+                    nxt = {"running": ["paused"], "paused": ["resuming"], "resuming": ["running"]}.get(last, ["running"])
+                    stt = rng.choice(nxt)
+                    # a dormant action is not woken up once the workflow is being canceled or has ended
+                    if stt == "resuming" and st in ("canceling", "canceled", "failed", "succeeded"):
+                        stt = "paused"
+                else:
+                    stt = rng.choice(fam.get("intermediate_statuses") or
+                                     ["running", "pausing", "paused", "pending", "resuming", "canceling"])
                 sess.report(key, stt, None)
             else:
                 stt, res = oracle.outcome(key, sess.inflight[key])
                 sess.report(key, stt, res)
         elif name == "ctrl":
-            if st in ("pausing", "paused") and rng.random() < 0.6:
+            if st == "running" and sess.inflight and rng.random() < fam.get("p_pause_drain", 0.0):
+                # pause, let everything in flight finish without polling (the workflow comes to rest paused,
+                # possibly with nothing left to run), then resume with either of the two resume requests
+                sess.request("pausing")
+                for key in sorted(sess.inflight, key=repr):
+                    stt, res = oracle.outcome(key, sess.inflight[key])
+                    sess.report(key, stt, res)
+                sess.request(rng.choice(["resuming", "running"]))
+            elif st in ("pausing", "paused") and rng.random() < 0.6:
                 sess.request(rng.choice(["resuming", "running"]))
             else:
                 sess.request(rng.choice(CTRL))
